@@ -1,8 +1,88 @@
-import Pun.Model.Proto
+import Pun.Model.Free
+/-!
+C10 line protocol (one request per line, reply `ok [left] [right]` | `ok parametric 0|1` | `err Kind`):
+
+  minmax a b | minmean m mu | maxmean M mu | mmm a b mu | median a b med | mode a b M
+  meanstd mu sigma [tL×199] [tR×199]
+  meanvar mu v s [tL] [tR]
+  mmms a b mu sigma smax [t1×201] [t2×201] [s5×201]
+  mmmv a b mu v s smax [t1] [t2] [s5]
+  kp maximum mean median minimum mode std var family(0|1) s smax [tL] [tR] [t1] [t2] [s5]   ("-" = None)
+
+The lists carry the square roots computed by numpy/Python for the same call (see Model/Free).
+-/
 namespace Pun.Drv.C10
-open Pun
+open Pun Pun.Free
+
+def showRes : Except Err PB → String
+  | .ok (l, r) => s!"ok {showList l} {showList r}"
+  | .error e => s!"err {e}"
+
+def tab (n : Nat) (s : String) : Option (Nat → Rat) := do
+  let l ← parseList s
+  if l.length = n then some (fun k => l.getD k 0) else none
+
+def optRat (s : String) : Option (Option Rat) :=
+  if s = "-" then some none else (parseRat s).map some
+
+def roots (smax t1 t2 s5 : String) : Option Roots := do
+  some { smax := ← parseRat smax, t1 := ← tab 201 t1, t2 := ← tab 201 t2, s5 := ← tab 201 s5 }
 
 def handle : List String → String
+  | ["minmax", a, b] =>
+    match parseRat a, parseRat b with
+    | some a, some b => showRes (minMax a b)
+    | _, _ => "bad-op"
+  | ["minmean", a, b] =>
+    match parseRat a, parseRat b with
+    | some a, some b => showRes (minMean a b)
+    | _, _ => "bad-op"
+  | ["maxmean", a, b] =>
+    match parseRat a, parseRat b with
+    | some a, some b => showRes (maxMean a b)
+    | _, _ => "bad-op"
+  | ["mmm", a, b, c] =>
+    match parseRat a, parseRat b, parseRat c with
+    | some a, some b, some c => showRes (minMaxMean a b c)
+    | _, _, _ => "bad-op"
+  | ["median", a, b, c] =>
+    match parseRat a, parseRat b, parseRat c with
+    | some a, some b, some c => showRes (minMaxMedian a b c)
+    | _, _, _ => "bad-op"
+  | ["mode", a, b, c] =>
+    match parseRat a, parseRat b, parseRat c with
+    | some a, some b, some c => showRes (minMaxMode a b c)
+    | _, _, _ => "bad-op"
+  | ["meanstd", mu, sg, tL, tR] =>
+    match parseRat mu, parseRat sg, tab 199 tL, tab 199 tR with
+    | some mu, some sg, some tL, some tR => showRes (meanStd tL tR mu sg)
+    | _, _, _, _ => "bad-op"
+  | ["meanvar", mu, v, s, tL, tR] =>
+    match parseRat mu, parseRat v, parseRat s, tab 199 tL, tab 199 tR with
+    | some mu, some v, some s, some tL, some tR => showRes (meanVar tL tR mu v s)
+    | _, _, _, _, _ => "bad-op"
+  | ["mmms", a, b, mu, sg, smax, t1, t2, s5] =>
+    match parseRat a, parseRat b, parseRat mu, parseRat sg, roots smax t1 t2 s5 with
+    | some a, some b, some mu, some sg, some R => showRes (minMaxMeanStd R a b mu sg)
+    | _, _, _, _, _ => "bad-op"
+  | ["mmmv", a, b, mu, v, s, smax, t1, t2, s5] =>
+    match parseRat a, parseRat b, parseRat mu, parseRat v, parseRat s, roots smax t1 t2 s5 with
+    | some a, some b, some mu, some v, some s, some R => showRes (minMaxMeanVar R a b mu v s)
+    | _, _, _, _, _, _ => "bad-op"
+  | ["kp", mx, me, md, mn, mo, sd, vr, fam, s, smax, tL, tR, t1, t2, s5] =>
+    match optRat mx, optRat me, optRat md, optRat mn, optRat mo, optRat sd, optRat vr with
+    | some mx, some me, some md, some mn, some mo, some sd, some vr =>
+      match parseRat s, roots smax t1 t2 s5, tab 199 tL, tab 199 tR with
+      | some s, some R, some tL, some tR =>
+        if fam ≠ "0" ∧ fam ≠ "1" then "bad-op" else
+        let A : Args := { maximum := mx, mean := me, median := md, minimum := mn, mode := mo,
+                          std := sd, var := vr, family := fam == "1" }
+        match knownProperties { sv := s, tL := tL, tR := tR, roots := R } A with
+        | .ok (.pbox p) => showRes (.ok p)
+        | .ok (.parametric t) => s!"ok parametric {if t then 1 else 0}"
+        | .error e => s!"err {e}"
+      | _, _, _, _ => "bad-op"
+    | _, _, _, _, _, _, _ => "bad-op"
   | _ => "bad-op"
 
 end Pun.Drv.C10
